@@ -106,6 +106,10 @@ def part_specs():
         if p[0] != "prim":
             out.extend(c10.part_spellings(p))
     out.append({"type": "map_value", "key.in": ["a", {"path": ["k"]}], "value.length.lt": 3, "label": "x"})
+    # long forms that are combinations (nested lists the parser must not touch) next to shorthands of the same kind
+    out.append({"type": "map_value", "value": {"and": [{"value.gt": 0}, {"value.lt": 9}]}, "value.dtype.eq": "int"})
+    out.append({"type": "list_value", "index": {"or": [{"index.eq": 0}, {"index.gt": 2}]}, "index.lt": 9, "value": {"and": [{"value.gt": 0}]}})
+    out.append({"type": "map_or_list_value", "key": {"and": [{"key.eq": "a"}]}, "key.length.eq": 1, "condition": {"and": [{"value.gt": 0}, {"value.lt": 5}]}})
     return out
 
 
